@@ -22,7 +22,7 @@ MANIFEST = dict(
          'that a waiting picker always has a lock holder with an enabled step, and (pure arithmetic) that round-robin slot counts differ by '
          'at most one for every start counter below 2^63. The model is tied to /repo on every run: regenerated status enum and step fingerprints (T-gen), '
          'step-by-step trace conformance of the real manager under a controlled scheduler, sequential differential runs and concurrent stress, '
-         'with liveness probes of the real pollers and a descriptor census; the Lean spec oracle judges the implementation\'s replies directly. '
+         'with liveness probes of the real pollers and a descriptor census - also for a Pick / Reset / Close that arrives while loops of the pool are busy in a callback with an unconsumed Trigger() (op pend: the Close of a surplus poller then adds to the pending wake-up on the eventfd counter; the closed ones must still stop) -; the Lean spec oracle judges the implementation\'s replies directly. '
          'The call sites through which the package reaches the pool (Initialize = one Pick, Run only behind the status CAS or from Reset) are regenerated and compared too.',
     note='Trusted: Lean kernel; axioms propext/Classical.choice/Quot.sound; extractor; harness, scheduler and line protocol. Correspondence is sampling '
          '(evidence lists sites and schedules exercised). Schedule points are add-only vmgrPoint lines applied from hooks/manager.patch to a temporary copy of '
@@ -164,7 +164,8 @@ def run(rep, prop=PROP):
         per_mode[r['mode']] = per_mode.get(r['mode'], 0) + r['scn']
     rep.cov['evaluations'] = nscn
     rep.cov['distinct_nontrivial'] = len(scheds) + len(finals)
-    rep.cov['rule'] = ('scenarios generated by go/inpkg/mgrh.go on a fresh manager each: seq = sequential SetNumLoops/SetLoadBalance/Pick/Reset/Close/counter presets; '
+    rep.cov['rule'] = ('scenarios generated by go/inpkg/mgrh.go on a fresh manager each: seq = sequential SetNumLoops/SetLoadBalance/Pick/Reset/Close/counter presets, a third of the reconfiguring Picks '
+                       'and half of the Closes issued while loops are parked in a callback with an unconsumed Trigger (pend); '
                        'sched = phases of 1-5 goroutines in Pick under the one-actor-at-a-time scheduler, every atomic step compared with Netpoll.Manager.step '
                        '(shared words, balancer snapshot, where every actor is parked, descriptor census, closed pollers), openPoll failures injected in ~8% of them '
                        '(the scenario goes on after the failure: closed manager, revival by SetLoadBalance/SetNumLoops); '
